@@ -28,6 +28,23 @@ def fam_values(maxops):
     }
 
 
+def fam_gen(maxops):
+    """generator handlers next to plain ones: values yielded over several ticks, a raise in a later step"""
+    return {
+        'comps': {'1': {'chan': 'a'}},
+        'handlers': {
+            '1': _h(1, ['x0'], 2, {'x0': [['ret', 1]]}),
+            '2': _h(1, ['x0'], 1, {'x0': [['raise']]}),
+            '3': _h(1, ['x0'], 0, {'x0': [['yield', 2], ['yield', None], ['ret', 3]]}),
+            '4': _h(1, ['x0'], -1, {'x0': [['yield', None], ['fire', {'name': 'x1', 'flags': 1}], ['raise']]}),
+            '5': _h(1, ['x1'], 0, {'x1': [['yield', 4]]}),
+            '6': _h(1, ['x0_success', 'x0_failure', 'x1_success', 'exception'], 0, {}),
+        },
+        'ext': [{'name': 'x0', 'flags': 1}, {'name': 'x0', 'flags': 3}, {'name': 'x0', 'flags': 8}],
+        'ops': ['fire', 'tick', 'rmh'], 'pre': [], 'maxops': maxops, 'firers': [1], 'flushers': [1], 'dyn': [2, 4],
+    }
+
+
 RANDOM_OPTS = {
     'ncomp': 3, 'shapes': ['plain', 'class'], 'nhandlers': (2, 7), 'prios': [-1, 0, 0, 1],
     'kinds': ['named', 'named', 'named', 'catchall'], 'nnames': 3,
@@ -72,8 +89,11 @@ def run(tier, replay=None):
         'families': [
             {'name': 'values', 'programs': [fam_values(2 if quick else 3)], 'hist_programs': [fam_values(2 if quick else 3)],
              'hist_cap_quick': 800},
+            {'name': 'generators', 'programs': [fam_gen(2 if quick else 3)], 'hist_programs': [fam_gen(2 if quick else 3)],
+             'hist_cap_quick': 600},
         ],
-        'teeth': [],
+        'teeth': [{'name': 'generators/SuccessNoErr', 'programs': [fam_gen(2)], 'variants': {'SuccessNoErr': True},
+                   'expect': {'ConformsC04'}}],
         'random': gen_random, 'witness': witness, 'mutators': mutate,
         'rule': 'cases = (program, external history): every complete history TLC generates for the value/feedback family (handlers '
                 'returning values / None / raising, nested fire, all success/failure/notify flag combinations, handler removal) '
